@@ -303,8 +303,13 @@ def gen_ref_set(rng, allow_m1_wrapped=True, small=False):
                 tags.add("gzip_m1")
                 if len(rel) > 1 and rel[-1] != len(rel) - 1:
                     tags.add("gzip_m1_gaps")
+            nmem = rng.choice((1, 1, 1, 2, 3))
+            if nmem > 1:
+                tags.add("gzip_multi_member")
             entries.append(R.encode_wrapper(inner, abs_offs[-1], magic=magic,
-                                            timestamp=(msgs[-1][4] if magic == 1 else None)))
+                                            timestamp=(msgs[-1][4] if magic == 1 else None), members=nmem,
+                                            split_at=(sorted(rng.sample(range(1, 40), nmem - 1)) if nmem > 1 and
+                                                      rng.random() < 0.5 else None)))
             for o, (m, a, k, v, ts) in zip(abs_offs, msgs):
                 expected.append((o, m, a, k, v, ts))
             off = abs_offs[-1] + 1
